@@ -118,7 +118,25 @@ def run_case(seed, tier, rec, st):
             tsrc = "Lv"
             T = fam.module.Lv
             t = None
-        elif kind < 0.15:
+        elif kind < 0.10:
+            # a NamedTuple (and a TypedDict) of a PEP 563 module, embedded in a dataclass of ANOTHER module that has
+            # classes of the same names: member annotations resolve in the module that defines the tuple
+            other = Family("c06fut", future_annotations=True)
+            other.exec_src("class Color(enum.Enum):\n    red = 'red'\n    blue = 'blue'\n"
+                           "class Point(NamedTuple):\n    x: int\n    c: Color\n    d: datetime.date = datetime.date(2000, 1, 1)\n")
+            fam.module.other = other.module
+            fam.exec_src("class Color(enum.Enum):\n    a = 1\n    b = 2\n"
+                         "@dataclass\nclass Fig" + ("(DataClassDictMixin)" if rng.random() < 0.5 else "") + ":\n    p: other.Point\n    own: Color = Color.a\n"
+                         "    ps: List[other.Point] = field(default_factory=list)\n    op: Optional[other.Point] = None\n"
+                         + ("    class Config(BaseConfig):\n        namedtuple_as_dict = True\n" if rng.random() < 0.5 else ""))
+            facts = {"kind": "cross-module-namedtuple-pep563"}
+            import datetime
+            o = other.module
+            values = [fam.module.Fig(o.Point(1, o.Color.red), fam.module.Color.b, [o.Point(2, o.Color.blue, datetime.date(2020, 1, 2))], o.Point(3, o.Color.red))]
+            tsrc = "Fig"
+            T = fam.module.Fig
+            t = None
+        elif kind < 0.17:
             # same-named classes of two modules / generic specialised twice
             other = Family("c06other")
             other.exec_src("@dataclass\nclass Item:\n    sku: str\n    qty: int = 0\n")
